@@ -253,7 +253,8 @@ def check(desc, col):
     flags = dict(desc.get("flags") or {})
     ident = [fn, canon(tree), sym if fn == "diff_geq_leq_zero" else None, sorted(rb), flags, bool(desc.get("expand"))]
     seed = hash32(fp(ident))
-    labels = [f"src:{src}", f"{src}:fn:{fn}", f"{src}:shape:{BX.shape_class(tree)}", f"{src}:nsym:{min(feats['nsym'], 6)}"]
+    main = "+".join(k for k in ("max", "min", "ceil", "heav") if feats[k]) or ("plain-mixed-sign" if feats["neg"] else "plain-positive")
+    labels = [f"{src}:fn:{fn}", f"{src}:shape:{main}", f"{src}:nsym:{min(feats['nsym'], 4)}{'+' if feats['nsym'] > 4 else ''}"]
     if desc.get("variant"):
         labels.append(f"harvest-variant:{desc['variant']}")
 
@@ -324,7 +325,6 @@ def check(desc, col):
         return
     main_v = verdicts[0][1]
     structured = feats["nsym"] >= 2 or feats["ceil"] or feats["max"] or feats["min"] or feats["heav"] or feats["floor"]
-    labels.append(f"{src}:verdict:{main_v}")
     labels.append(f"{src}:{fn}:verdict:{main_v}")
     if main_v == "UNKNOWN" and truth != "MIXED":
         labels.append(f"{src}:UNKNOWN-although-truth-is-definite")
@@ -538,13 +538,14 @@ def formulas(draw):
 # ---------------------------------------------------------------------------
 
 VARIANTS = ["base", "base", "imperfect_temporal", "spatial", "spatial_imperfect", "conv", "conv"]
+METRICS = ["ENERGY", "LATENCY", "LATENCY", "ENERGY_DELAY_PRODUCT", "ENERGY|LATENCY"]
 
 
 @st.composite
 def harvest_cases(draw):
     variant = draw(st.sampled_from(VARIANTS))
     shapes = ("matmul",) if variant == "conv" else ("matmul", "matmul", "matvec", "elementwise", "chain2", "elementwise2")
-    sp = draw(G.specs(shapes=shapes, levels=(2, 2, 3), metrics=("ENERGY", "LATENCY", "LATENCY", "ENERGY_DELAY_PRODUCT", "ENERGY|LATENCY"),
+    sp = draw(G.specs(shapes=shapes, levels=(2, 2, 3), metrics=tuple(METRICS),
                       finite_tp=True, bound_pool=[2, 3, 4, 4, 6, 6, 8, 9, 12], max_ops=1500))
     if draw(st.booleans()):
         sp["mapper"]["max_fused_loops"] = draw(st.sampled_from([0, 1, 2, "inf"]))
@@ -698,15 +699,16 @@ def run_harvest_shard(shard, col):
 
 N_GRAMMAR = {"quick": 320, "thorough": 3200}
 N_SPECS = {"quick": 30, "thorough": 300}
-GRAMMAR_SHARDS = 4
-HARVEST_SHARDS = 6
+GRAMMAR_SHARDS = {"quick": 4, "thorough": 8}
+HARVEST_SHARDS = {"quick": 6, "thorough": 8}
 QUICK_BUDGET_S = 420
 THOROUGH_BUDGET_S = 2400
 
 
 def shards(tier, seed):
-    out = [{"k": k, "kind": "harvest", "n": max(1, N_SPECS[tier] // HARVEST_SHARDS), "seed": seed} for k in range(HARVEST_SHARDS)]
-    out += [{"k": k, "kind": "grammar", "n": N_GRAMMAR[tier] // GRAMMAR_SHARDS, "seed": seed} for k in range(GRAMMAR_SHARDS)]
+    nh, ng = HARVEST_SHARDS[tier], GRAMMAR_SHARDS[tier]
+    out = [{"k": k, "kind": "harvest", "n": max(1, N_SPECS[tier] // nh), "seed": seed} for k in range(nh)]
+    out += [{"k": k, "kind": "grammar", "n": N_GRAMMAR[tier] // ng, "seed": seed} for k in range(ng)]
     return out
 
 
